@@ -18,9 +18,13 @@ CONFIGS = {      # cell sizes are dyadic so that grid coordinates are exact in b
     'tall':  ((0.0, 0.0, 2.0, 8.0), (0.5, 4.0), 0.0),       # dX = 0.5 << dY = 4: 4 x 2 cells
     'one':   ((0.0, 0.0, 2.0, 2.0), (3.0, 3.0), 0.5),       # a single cell
     'narrow': ((0.0, 0.0, 2.0, 4.0), (1.0, 1.0), 0.0),      # more rows than columns: 2 x 4 unit cells
+    'fine': ((0.0, 0.0, 16.0, 16.0), (1.0, 1.0), 0.0),       # scale probes: 16 x 16 unit cells (long segments over > 64 cells, radii of >= 5 units, sparse inventory)
     'default': ((0.0, 0.0, 100.0, 50.0), None, 0.0),        # default resolution: 100 x 50 unit cells; point queries in two corner windows only
 }
 FEAT = 7
+# long segments on the fine grid: fixed first vertex; the second vertex is base + s along one axis, s symbolic in [0, 1]
+LONGS = [((0.5, 0.25), (12.5, 9.75), 'x'), ((15.5, 0.5), (2.25, 11.0), 'y'), ((0.25, 15.5), (14.0, 3.5), 'x'), ((3.0, 3.0), (12.5, 13.0), 'x'),
+         ((1.5, 14.75), (13.25, 2.0), 'y'), ((0.75, 8.5), (15.0, 9.25), 'y'), ((8.5, 0.75), (9.25, 15.0), 'x')]
 
 
 def build_index(cfg, markers=False):
@@ -32,6 +36,8 @@ def build_index(cfg, markers=False):
     if markers:
         for i in range(si.csize):
             for j in range(si.lsize):
+                if markers == 'sparse' and (i % 4 or j % 4):
+                    continue
                 a = ENUCoords(si.xmin + (i + 0.4) * si.dX, si.ymin + (j + 0.4) * si.dY, 0)
                 b = ENUCoords(si.xmin + (i + 0.6) * si.dX, si.ymin + (j + 0.5) * si.dY, 0)
                 si.addFeature(Track([Obs(a, ObsTime()), Obs(b, ObsTime())]), 1000 + i * si.lsize + j)
@@ -85,6 +91,11 @@ class C08(Check):
                     js.append(dict(kind='segq', cfg=c, nv=3, c0=k))
             js.append(dict(kind='point', cfg=c))
             js.append(dict(kind='neigh', cfg=c))
+        for k in range(len(LONGS) if not q else 4):
+            js.append(dict(kind='register', cfg='fine', nv=2, long=k))
+            js.append(dict(kind='segq', cfg='fine', nv=2, long=k))
+        for c0 in ([(8, 8)] if q else [(8, 8), (4, 8), (0, 0), (15, 12)]):
+            js.append(dict(kind='neigh', cfg='fine', sparse=True, cell=list(c0)))
         js.append(dict(kind='point', cfg='default', window=0))
         js.append(dict(kind='point', cfg='default', window=1))
         js.sort(key=lambda j: 0 if j['kind'] in ('register', 'segq') else 1)
@@ -98,6 +109,24 @@ class C08(Check):
             return eng.real(name + 'x', si.xmin, si.xmax), eng.real(name + 'y', si.ymin, si.ymax)
         return float(inp[name + 'x']), float(inp[name + 'y'])
 
+    def _long_pts(self, eng, inp, job):
+        a, b, axis = LONGS[job['long']]
+        sv = eng.real('s', 0, 1) if inp is None else float(inp['s'])
+        return [a, (b[0] + sv, b[1]) if axis == 'x' else (b[0], b[1] + sv)]
+
+    @staticmethod
+    def _may_cross(job, i, j):
+        """long segments: cells outside the bounding box of every admissible end point cannot contain a point of the segment (sound pruning of the query)"""
+        if 'long' not in job:
+            return True
+        a, b, axis = LONGS[job['long']]
+        xs = [a[0], b[0], b[0] + (1 if axis == 'x' else 0)]
+        ys = [a[1], b[1], b[1] + (1 if axis == 'y' else 0)]
+        return math.floor(min(xs)) - 1 <= i <= math.floor(max(xs)) + 1 and math.floor(min(ys)) - 1 <= j <= math.floor(max(ys)) + 1
+
+    def _markers(self, job):
+        return ('sparse' if job.get('sparse') else True) if job['kind'] in ('segq', 'neigh') else False
+
     def _track(self, pts):
         from tracklib.core import Track, Obs, ENUCoords, ObsTime
         return Track([Obs(ENUCoords(x, y, 0), ObsTime()) for x, y in pts])
@@ -108,7 +137,7 @@ class C08(Check):
         kind = job['kind']
         from tracklib.core import ENUCoords
         try:
-            si = build_index(cfg, markers=kind in ('segq', 'neigh'))
+            si = build_index(cfg, markers=self._markers(job))
         except (Exception, SystemExit) as e:
             ctx.reach()
             ctx.fail('building the index over a collection raised %s' % type(e).__name__)
@@ -118,8 +147,11 @@ class C08(Check):
         gy = lambda y: (zreal(y) - core.zreal(si.ymin)) / core.zreal(si.dY)
         try:
             if kind == 'register':
-                pts = [self._pt(eng, None, si, 'v%d' % k) for k in range(job['nv'])]
-                eng.assume(in_cell(gx(pts[0][0]), gy(pts[0][1]), job['c0'] // L, job['c0'] % L, C, L))
+                if 'long' in job:
+                    pts = self._long_pts(eng, None, job)
+                else:
+                    pts = [self._pt(eng, None, si, 'v%d' % k) for k in range(job['nv'])]
+                    eng.assume(in_cell(gx(pts[0][0]), gy(pts[0][1]), job['c0'] // L, job['c0'] % L, C, L))
                 si.addFeature(self._track(pts), FEAT)
                 ctx.reach()
                 reg = [(i, j) for i in range(C) for j in range(L) if FEAT in si.grid[i][j]]
@@ -130,7 +162,7 @@ class C08(Check):
                     (xa, ya), (xb, yb) = pts[k], pts[k + 1]
                     sx = gx(xa) + t * (gx(xb) - gx(xa))
                     sy = gy(ya) + t * (gy(yb) - gy(ya))
-                    miss = [in_cell(sx, sy, i, j, C, L) for i in range(C) for j in range(L) if (i, j) not in reg]
+                    miss = [in_cell(sx, sy, i, j, C, L) for i in range(C) for j in range(L) if (i, j) not in reg and self._may_cross(job, i, j)]
                     if miss and not ctx.prove(z3.Implies(z3.And(t >= 0, t <= 1), z3.Not(z3.Or(miss))),
                                               'every cell crossed by a segment of the feature has the feature registered', chain=False):
                         return
@@ -152,8 +184,11 @@ class C08(Check):
                 ctx.prove(in_cell(gx(px), gy(py), i, j, C, L), 'a point query reads the cell that contains the point')
                 return
             if kind == 'segq':
-                pts = [self._pt(eng, None, si, 'q%d' % k) for k in range(job['nv'])]
-                eng.assume(in_cell(gx(pts[0][0]), gy(pts[0][1]), job['c0'] // L, job['c0'] % L, C, L))
+                if 'long' in job:
+                    pts = self._long_pts(eng, None, job)
+                else:
+                    pts = [self._pt(eng, None, si, 'q%d' % k) for k in range(job['nv'])]
+                    eng.assume(in_cell(gx(pts[0][0]), gy(pts[0][1]), job['c0'] // L, job['c0'] % L, C, L))
                 if job['nv'] == 2:
                     got = si.request([ENUCoords(pts[0][0], pts[0][1], 0), ENUCoords(pts[1][0], pts[1][1], 0)])
                 else:
@@ -165,14 +200,18 @@ class C08(Check):
                     (xa, ya), (xb, yb) = pts[k], pts[k + 1]
                     sx = gx(xa) + t * (gx(xb) - gx(xa))
                     sy = gy(ya) + t * (gy(yb) - gy(ya))
-                    miss = [in_cell(sx, sy, i, j, C, L) for i in range(C) for j in range(L) if (1000 + i * L + j) not in got]
+                    miss = [in_cell(sx, sy, i, j, C, L) for i in range(C) for j in range(L) if (1000 + i * L + j) not in got and self._may_cross(job, i, j)]
                     if miss and not ctx.prove(z3.Implies(z3.And(t >= 0, t <= 1), z3.Not(z3.Or(miss))),
                                               'a segment / track query returns every feature registered in a crossed cell', chain=False):
                         return
                 return
             if kind == 'neigh':
                 px, py = self._pt(eng, None, si, 'p')
-                d = eng.real('d', 0, max(si.xmax - si.xmin, si.ymax - si.ymin))
+                if job.get('cell'):
+                    eng.assume(in_cell(gx(px), gy(py), job['cell'][0], job['cell'][1], C, L))
+                    d = eng.real('d', 3, 8)
+                else:
+                    d = eng.real('d', 0, max(si.xmax - si.xmin, si.ymax - si.ymin))
                 u = si.groundDistanceToUnits(d)
                 got = si.neighborhood(ENUCoords(px, py, 0), None, u)
                 ctx.reach()
@@ -185,7 +224,7 @@ class C08(Check):
                 near = (qx - zreal(px)) * (qx - zreal(px)) + (qy - zreal(py)) * (qy - zreal(py)) <= d.z * d.z
                 ggx = (qx - core.zreal(si.xmin)) / core.zreal(si.dX)
                 ggy = (qy - core.zreal(si.ymin)) / core.zreal(si.dY)
-                miss = [in_cell(ggx, ggy, i, j, C, L) for i in range(C) for j in range(L) if (1000 + i * L + j) not in got]
+                miss = [in_cell(ggx, ggy, i, j, C, L) for i in range(C) for j in range(L) if (1000 + i * L + j) not in got and (not job.get('sparse') or not (i % 4 or j % 4))]
                 if miss:
                     ctx.prove(z3.Implies(z3.And(inside, near), z3.Not(z3.Or(miss))),
                               'a neighbourhood query with the converted ground distance d returns every feature registered at a point within d', chain=False)
@@ -203,11 +242,11 @@ class C08(Check):
         from tracklib.core import ENUCoords
         cfg, kind = job['cfg'], job['kind']
         try:
-            si = build_index(cfg, markers=kind in ('segq', 'neigh'))
+            si = build_index(cfg, markers=self._markers(job))
         except (Exception, SystemExit) as e:
             return dict(violation='building the index %s %r raised %s: %s' % (cfg, CONFIGS[cfg], type(e).__name__, e))
         C, L = si.csize, si.lsize
-        N = 400
+        N = 400 if 'long' not in job else 4000
 
         def cells_on(pts):
             out = set()
@@ -218,7 +257,7 @@ class C08(Check):
             return out
         try:
             if kind == 'register':
-                pts = [self._pt(None, inp, si, 'v%d' % k) for k in range(job['nv'])]
+                pts = self._long_pts(None, inp, job) if 'long' in job else [self._pt(None, inp, si, 'v%d' % k) for k in range(job['nv'])]
                 si.addFeature(self._track(pts), FEAT)
                 reg = {(i, j) for i in range(C) for j in range(L) if FEAT in si.grid[i][j]}
                 tparam = inp.get('t')
@@ -237,7 +276,7 @@ class C08(Check):
                     return dict(violation='point query (%r, %r) on grid %s read cell %r, the point is in cell %r' % (px, py, cfg, hit, cell_of(si, px, py)))
                 return dict(violation=None, outputs=dict(ci=hit[0][0], cj=hit[0][1]))
             if kind == 'segq':
-                pts = [self._pt(None, inp, si, 'q%d' % k) for k in range(job['nv'])]
+                pts = self._long_pts(None, inp, job) if 'long' in job else [self._pt(None, inp, si, 'q%d' % k) for k in range(job['nv'])]
                 got = si.request([ENUCoords(pts[0][0], pts[0][1], 0), ENUCoords(pts[1][0], pts[1][1], 0)]) if job['nv'] == 2 else si.request(self._track(pts))
                 need = cells_on(pts)
                 if inp.get('t') is not None:
@@ -264,6 +303,8 @@ class C08(Check):
                     if not (si.xmin <= qx <= si.xmax and si.ymin <= qy <= si.ymax) or math.hypot(qx - px, qy - py) > d:
                         continue
                     c = cell_of(si, qx, qy)
+                    if job.get('sparse') and (c[0] % 4 or c[1] % 4):
+                        continue
                     if (1000 + c[0] * L + c[1]) not in got:
                         return dict(violation='grid %s (cells %r x %r): neighbourhood of (%r, %r) for ground distance %r (units %r) misses the feature registered at (%r, %r), %r away'
                                               % (cfg, si.dX, si.dY, px, py, d, u, qx, qy, math.hypot(qx - px, qy - py)), outputs=dict(nret=len(got)))
